@@ -1,4 +1,6 @@
 import DEvo.Run.Tx
+import DEvo.Run.Batches
+import DEvo.Generated.Tables
 
 /-! # C07 — a failed upgrade leaves the database as it was and can be retried -/
 
@@ -108,5 +110,78 @@ theorem C07_no_transaction_end_inside_tasks :
     rcases hs with h | h | h | h <;> subst h <;> decide
   have := reach_all txMon 8 s false (fun _ st => !st) key tr o hex
   simpa using this
+
+/-! ## batching: which statements share a transaction (`_prepare_sql`, `_prepare_transaction_batches`) -/
+
+/-- batching loses, duplicates and reorders nothing, whatever the groups look like -/
+theorem C07_batches_keep_statements (yl : Bool) (gs : List Group) :
+    (cut yl (prepare gs)).flatMap (·.1) = prepare gs := by
+  simpa [cut] using cutLoop_flatten yl (prepare gs) [] none
+
+/-- **every batch is handed to `run_sql` with the flag of its own statements**: a statement that
+`_prepare_sql` marked "inside a transaction" is never executed in a batch that runs without one
+(and the other way round), for every list of statement groups -/
+theorem C07_batch_flag_is_its_statements_flag (gs : List Group) :
+    ∀ bf ∈ cut true (prepare gs), ∀ q ∈ bf.1, some q.useTx = bf.2 := by
+  intro bf hbf q hq
+  exact cutLoop_flags (prepare gs) [] none (by simp) bf hbf q hq
+
+/-- only the first statement of a batch may be the start of a `NewTransactionSQL` group -/
+theorem C07_new_transaction_starts_a_batch (yl : Bool) (gs : List Group) :
+    ∀ bf ∈ cut yl (prepare gs), ∀ q ∈ bf.1.tail, q.newTx = false := by
+  intro bf hbf q hq
+  exact cutLoop_newTx_first yl (prepare gs) [] none (by simp) bf hbf q hq
+
+/-- **atomicity through the batching**: an evolution made of ordinary statements only is ONE batch
+inside a transaction, so (C07_atomic) a failure at any of its statements leaves the database as it was -/
+theorem C07_ordinary_evolution_is_atomic (p : Prep) (ps : List Prep) (db : List String) (k : Nat)
+    (h : ∀ q ∈ p :: ps, q.useTx = true ∧ q.newTx = false) (hk : k < (p :: ps).length) :
+    cut true (p :: ps) = [(p :: ps, some true)] ∧
+      runBatch false ((p :: ps).map (·.stmt)) (some k) db = (db, .failed k) :=
+  ⟨cut_ordinary p ps h, C07_atomic _ db k (by simpa using hk)⟩
+
+/-- the ordinary statements that PRECEDE a statement which must run outside a transaction are still
+one batch inside a transaction -/
+theorem C07_statements_before_no_transaction_group (p : Prep) (ps : List Prep) (v : Prep) (rest : List Prep)
+    (h : ∀ q ∈ p :: ps, q.useTx = true ∧ q.newTx = false) (hv : v.useTx = false) :
+    (cut true ((p :: ps) ++ v :: rest)).head? = some (p :: ps, some true) := by
+  have hp := h p (by simp)
+  have key : ∀ (qs batch : List Prep), (∀ q ∈ qs, q.useTx = true ∧ q.newTx = false) → batch ≠ [] →
+      (cutLoop true (qs ++ v :: rest) batch (some true)).head? = some (batch ++ qs, some true) := by
+    intro qs
+    induction qs with
+    | nil =>
+      intro batch _ hb
+      cases batch with
+      | nil => exact absurd rfl hb
+      | cons b bs => simp [cutLoop, hv]
+    | cons q qs ih =>
+      intro batch hq hb
+      have h1 := hq q (by simp)
+      simp only [List.cons_append, cutLoop, h1.1, h1.2, Bool.false_or, bne_self_eq_false, Bool.false_eq_true,
+        if_false]
+      rw [ih (batch ++ [q]) (fun x hx => hq x (by simp [hx])) (by simp)]
+      simp
+  have := key ps [p] (fun q hq => h q (by simp [hq])) (by simp)
+  simpa [cut, cutLoop, hp.1, hp.2] using this
+
+/-- the source yields every batch with its own flag (read by the translator on every run) -/
+theorem C07_source_batch_flag : DEvo.Generated.batchYieldsOwnFlag = true := by decide
+
+/-- with the flag of the statement that starts the NEXT batch yielded instead, the rebuild that
+precedes a `VACUUM` is executed without a transaction -/
+theorem C07_cex_next_batch_flag :
+    cut false (prepare [.plain ["CREATE TABLE TEMP_TABLE", "DROP TABLE t"], .noTx ["VACUUM;"]]) =
+      [([⟨"CREATE TABLE TEMP_TABLE", true, false⟩, ⟨"DROP TABLE t", true, false⟩], some false),
+       ([⟨"VACUUM;", false, false⟩], some false)] := by decide
+
+/-- the same input with the source's rule (non-vacuity of the theorems above: three kinds of groups,
+a comment and an empty statement dropped) -/
+example :
+    cut true (prepare [.plain ["CREATE TABLE TEMP_TABLE", "-- note", "DROP TABLE t"], .noTx ["VACUUM;"],
+                       .newTx ["", "PRAGMA x;", "UPDATE y;"], .plain ["SELECT 1;"]]) =
+      [([⟨"CREATE TABLE TEMP_TABLE", true, false⟩, ⟨"DROP TABLE t", true, false⟩], some true),
+       ([⟨"VACUUM;", false, false⟩], some false),
+       ([⟨"PRAGMA x;", true, true⟩, ⟨"UPDATE y;", true, false⟩, ⟨"SELECT 1;", true, false⟩], some true)] := by decide
 
 end DEvo.Props.C07
